@@ -3,6 +3,7 @@ package props
 import (
 	"fmt"
 	"go/ast"
+	"go/token"
 	"go/types"
 	"os"
 	"sort"
@@ -156,6 +157,8 @@ func runC17(c *engine.Ctx, tier string) {
 	// what is readable afterwards is what was set only if the store rewrites an entry whenever a later
 	// transaction touched it: sign, width and element lengths live in TypeOpts, not in the value bytes
 	persistTableSync(c, "C17.7", pkgStoreCfgV2)
+	oneElementType(c, "C17.9/v2", pkgValuesV2)
+	oneElementType(c, "C17.9/v3", pkgValuesV3)
 	// one attribute for a whole leaf-list must not be the last element's
 	lwPkgs := []string{pkgValuesV2, pkgValuesV3}
 	if os.Getenv("OCC_LASTWINS_ALL") != "" { // survey mode: every package of the module
@@ -611,5 +614,66 @@ func leafListWidth(c *engine.Ctx, id, tree string) {
 			reported[kind+bad] = true
 			o.Fail(&engine.Violation{Key: tree + ".handleLeafValue|LEAFLIST_" + kind + " width rule", Pos: c.P.Pos(p.Events[len(p.Events)-1].Pos), Func: p.Root.Name(), Msg: bad})
 		}
+	}
+}
+
+// oneElementType: C17.9 (finding F70). handleLeafList sorts the elements of a gNMI leaf-list into one list per
+// element type and stores ONE of them: unless a collection with more than one non-empty list is refused, the
+// elements of the other types are dropped silently. Decided: after the element loop there is an error exit
+// other than the one taken when every list is empty.
+func oneElementType(c *engine.Ctx, id, rel string) {
+	o := c.Custom(id, "K-exists(refusal)", "handleLeafList: after the loop over the elements some path returns an error although not every per-type list is empty (a mixed collection is refused)",
+		"the value a client sets is the value stored: elements of a second type must not vanish")
+	defer o.Done(1)
+	ps, err := c.A.PathsOpt(rel, engine.PathOpts{Roots: []string{".handleLeafList"}, NoInline: true})
+	if err != nil || len(ps) == 0 {
+		o.Undecided(rel, fmt.Sprintf("no paths of handleLeafList: %v", err))
+		return
+	}
+	lists, refusing := map[string]bool{}, 0
+	var pos token.Pos
+	for _, p := range ps {
+		last := &p.Events[len(p.Events)-1]
+		if last.Kind != engine.EvReturn || len(last.Results) != 2 {
+			continue
+		}
+		pos = last.Pos
+		// the element loop is the first loop of the function
+		exit := -1
+		var first *engine.Event
+		for i := range p.Events {
+			e := &p.Events[i]
+			if e.Kind == engine.EvLoopEnter && first == nil {
+				first = e
+			}
+			if first != nil && e.Kind == engine.EvLoopExit && e.Node == first.Node {
+				exit = i
+				break
+			}
+		}
+		if exit < 0 {
+			continue
+		}
+		if last.Results[1] == "nil" {
+			if k := strings.Index(last.Results[0], "(?"); k > 0 {
+				lists[last.Results[0][:k]] = true
+			}
+			continue
+		}
+		empties := 0
+		for i := exit; i < len(p.Events); i++ {
+			if e := &p.Events[i]; e.Kind == engine.EvCond && strings.HasPrefix(e.Lit.L, "len(?") && e.Lit.R == "0" && e.Lit.Mask&4 == 0 {
+				empties++
+			}
+		}
+		o.Eval(1)
+		if empties < 2 {
+			refusing++
+		}
+	}
+	o.Site(fmt.Sprintf("%s.handleLeafList: %d typed lists returned, %d refusing exits after the element loop", rel, len(lists), refusing))
+	if len(lists) >= 2 && refusing == 0 {
+		o.Fail(&engine.Violation{Key: rel + ".handleLeafList|mixed element types not refused", Pos: c.P.Pos(pos), Func: "handleLeafList",
+			Msg: fmt.Sprintf("the elements are sorted into %d per-type lists and one of them is returned, but after the loop the only error exit is the one for 'every list empty': a leaf-list with elements of two types is stored as the elements of one of them", len(lists))})
 	}
 }
